@@ -86,7 +86,7 @@ func (r Record) End() uint32 { return r.Off + RecSize(len(r.Name)) }
 // File is a decoded counter file.
 type File struct {
 	HdrLen  uint32
-	RawMeta string     // metadata bytes up to the first NUL
+	RawMeta string      // metadata bytes up to the first NUL
 	MetaKV  [][2]string // in file order
 	Meta    map[string]string
 	Limit   uint32
